@@ -256,6 +256,8 @@ type c14ctx struct {
 	evals int64
 
 	family     string // query family being run (see c14disabled)
+	phase      string // "" or "@after-sequence-queries": suffix of the violation keys of the re-query pass
+	light      bool   // re-query pass: node-level queries only
 	harnessErr string // a failure of the harness itself (never a verdict)
 }
 
@@ -277,7 +279,7 @@ func (cx *c14ctx) violate(key, format string, a ...any) {
 	if op != nil {
 		where = cx.describe(op) + ": "
 	}
-	cx.r.Violate(key, where+fmt.Sprintf(format, a...), cx.c)
+	cx.r.Violate(key+cx.phase, where+fmt.Sprintf(format, a...), cx.c)
 }
 
 // do runs one implementation call. Arguments a,b,c are taxids (or -1). It returns ok=false when the call
@@ -417,7 +419,73 @@ func (cx *c14ctx) checkStructure() bool {
 		}
 	}
 	cx.r.Count("alias_resolutions", int64(2*m.n))
+
+	// other spellings of a taxid in a string (the slot read by IsSubCladeOfSlot holds strings): "TX:<taxid>"
+	// alone or inside a text with other digits. Judged only when this tree resolves such strings at all
+	// (c14txForms, probed once): then they designate the taxon whose taxid follows "TX:", for taxids, aliases
+	// and the unknown taxid alike. A string without any digit designates no taxon.
+	if !cx.c.Full {
+		return good // the spellings do not depend on the ranks: once per (construction, numbering, tree)
+	}
+	if c14txForms {
+		for i := 0; i <= m.n; i++ {
+			qs := []int{m.unknown}
+			if i < m.n {
+				qs = []int{m.ids[i], m.alias[i]}
+			}
+			for _, q := range qs {
+				for _, form := range c14stringForms(q) {
+					var t *obitax.TaxNode
+					var err error
+					fn := "Taxonomy.Taxon(string)"
+					if ok, _ := cx.do(fn, q, -1, -1, form, func() { t, err = tax.Taxon(form) }); !ok {
+						continue
+					}
+					cx.r.Count("taxid_string_forms", 1)
+					switch {
+					case i == m.n:
+						if err == nil && t != nil {
+							cx.violate(fn+"/TX-form-unknown-taxid-resolved", "%q resolved to %d", form, t.Taxid())
+						}
+					case err != nil || t == nil:
+						cx.violate(fn+"/TX-form-not-resolved", "%q: error %v, want taxon %d", form, err, m.ids[i])
+					case t.Taxid() != m.ids[i]:
+						cx.violate(fn+"/TX-form-wrong-taxon", "%q: got %d want %d", form, t.Taxid(), m.ids[i])
+					}
+				}
+			}
+		}
+	}
+	for _, form := range []string{"", "abc", "TX:", "TX:x"} {
+		var t *obitax.TaxNode
+		var err error
+		fn := "Taxonomy.Taxon(string)"
+		if ok, _ := cx.do(fn, -1, -1, -1, form, func() { t, err = tax.Taxon(form) }); ok && err == nil && t != nil {
+			cx.violate(fn+"/string-without-taxid-resolved", "%q resolved to %d", form, t.Taxid())
+		}
+	}
 	return good
+}
+
+// does this tree resolve "TX:<taxid>" strings at all (probed once on a one-node taxonomy)
+var c14txForms bool
+
+func c14probeTxForms() bool {
+	tax := obitax.NewTaxonomy()
+	if _, err := tax.AddNewTaxa(7, 7, "no rank", false, false); err != nil || tax.ReindexParent() != nil {
+		return false
+	}
+	ok := false
+	func() {
+		defer func() { recover() }()
+		t, err := tax.Taxon("TX:7")
+		ok = err == nil && t != nil && t.Taxid() == 7
+	}()
+	return ok
+}
+
+func c14stringForms(q int) []string {
+	return []string{fmt.Sprintf("TX:%d", q), fmt.Sprintf("Taxon %d sp. 3 [TX:%d] 12", q+1, q)}
 }
 
 // ---------------------------------------------------------------------------------------------
@@ -454,6 +522,30 @@ func (cx *c14ctx) checkPaths() {
 		var err error
 		if ok, _ := cx.do("TaxNode.Path", m.ids[i], -1, -1, "", func() { p, err = cx.nodes[i].Path() }); ok {
 			cmp("TaxNode.Path", p, err, i)
+			if err == nil && p != nil && len(*p) > 0 {
+				// the accessors of the answer
+				var l int
+				var first *obitax.TaxNode
+				var str string
+				if ok, _ := cx.do("TaxonSlice.Len/Get/String", m.ids[i], -1, -1, "", func() { l, first, str = p.Len(), p.Get(0), p.String() }); ok {
+					if l != len(*p) || first != (*p)[0] {
+						cx.violate("TaxonSlice.Len/Get/wrong", "Len()=%d Get(0)=%d on a path of %d taxa starting at %d", l, c14tid(first), len(*p), c14tid((*p)[0]))
+					}
+					cx.judgePathString("TaxonSlice.String", str, i)
+				}
+				// the answer belongs to the caller (Taxonomy.LCA(sequence) reverses it in place): modifying it
+				// must not change what the next call says
+				for a, b := 0, len(*p)-1; a < b; a, b = a+1, b-1 {
+					(*p)[a], (*p)[b] = (*p)[b], (*p)[a]
+				}
+				(*p)[0] = nil
+				var p2 *obitax.TaxonSlice
+				fn := "TaxNode.Path(after-the-caller-modified-a-previous-answer)"
+				if ok, _ := cx.do(fn, m.ids[i], -1, -1, "", func() { p2, err = cx.nodes[i].Path() }); ok {
+					cmp(fn, p2, err, i)
+					cx.r.Count("path_ownership_histories", 1)
+				}
+			}
 		}
 		for _, q := range []int{m.ids[i], m.alias[i]} {
 			if ok, _ := cx.do("Taxonomy.Path", q, -1, -1, "", func() { p, err = tax.Path(q) }); ok {
@@ -471,6 +563,90 @@ func (cx *c14ctx) checkPaths() {
 		if err == nil && p != nil && len(*p) > 0 {
 			cx.violate("Taxonomy.Path/unknown-taxid-has-path", "unknown taxid %d has a path of %d taxa", m.unknown, len(*p))
 		}
+	}
+	if cx.light {
+		return
+	}
+
+	// sequence layer: --taxonomic-path, --scientific-name, --taxonomic-rank (SetPath / MakeSetPathWorker /
+	// SetScientificName / SetTaxonomicRank). log.Fatal on a sequence whose taxid is unknown is a refusal to run.
+	var pathWorker obiseq.SeqWorker
+	cx.do("Taxonomy.MakeSetPathWorker", -1, -1, -1, "", func() { pathWorker = tax.MakeSetPathWorker() })
+	for _, S := range append(append(append([]int{}, m.ids...), m.alias...), m.unknown) {
+		sn, sknown := m.nodeOf[S]
+		for v := 0; v < 2; v++ {
+			fn := "Taxonomy.SetPath"
+			if v == 1 {
+				fn = "Taxonomy.MakeSetPathWorker(seq)"
+				if pathWorker == nil {
+					continue
+				}
+			}
+			s := c14seq(S)
+			ok, _ := cx.do(fn, S, -1, -1, "", func() {
+				if v == 0 {
+					tax.SetPath(s)
+				} else {
+					pathWorker(s)
+				}
+			})
+			if !ok || !sknown {
+				continue
+			}
+			cx.r.Count("seq_paths", 1)
+			if str, has := s.GetStringAttribute("taxonomic_path"); !has {
+				cx.violate(fn+"/missing", "sequence taxid %d: no taxonomic_path attribute", S)
+			} else {
+				cx.judgePathString(fn, str, sn)
+			}
+		}
+		s := c14seq(S)
+		if ok, _ := cx.do("Taxonomy.SetScientificName", S, -1, -1, "", func() { tax.SetScientificName(s) }); ok && sknown {
+			g, has := s.GetStringAttribute("scientific_name")
+			if !has {
+				g, has = s.GetStringAttribute("scienctific_name") // the spelling of the attribute is not constrained
+			}
+			if !has || g != m.names[sn] {
+				cx.violate("Taxonomy.SetScientificName/wrong", "sequence taxid %d: name %q (present=%v) want %q", S, g, has, m.names[sn])
+			}
+		}
+		s = c14seq(S)
+		if ok, _ := cx.do("Taxonomy.SetTaxonomicRank", S, -1, -1, "", func() { tax.SetTaxonomicRank(s) }); ok && sknown {
+			if g, has := s.GetStringAttribute("taxonomic_rank"); !has || g != m.ranks[sn] {
+				cx.violate("Taxonomy.SetTaxonomicRank/wrong", "sequence taxid %d: taxonomic_rank=%q (present=%v) want %q", S, g, has, m.ranks[sn])
+			}
+		}
+	}
+}
+
+// judgePathString: a printed path is a list of taxid@name@rank joined by '|' naming the taxa from node i to
+// the root (either direction: the statement does not say which end comes first) with their names and ranks
+func (cx *c14ctx) judgePathString(fn, str string, i int) {
+	m := cx.m
+	var got []int
+	fieldsOK := true
+	for _, item := range strings.Split(str, "|") {
+		f := strings.Split(item, "@")
+		id, err := strconv.Atoi(f[0])
+		if len(f) != 3 || err != nil {
+			cx.violate(fn+"/malformed", "%q is not a list of taxid@name@rank", str)
+			return
+		}
+		got = append(got, id)
+		if x, ok := m.nodeOf[id]; !ok || m.ids[x] != id || f[1] != m.names[x] || f[2] != m.ranks[x] {
+			fieldsOK = false
+		}
+	}
+	var up, down []int
+	for _, x := range m.anc[i] {
+		up = append(up, m.ids[x])
+		down = append([]int{m.ids[x]}, down...)
+	}
+	switch {
+	case fmt.Sprint(got) != fmt.Sprint(down) && fmt.Sprint(got) != fmt.Sprint(up):
+		cx.violate(fn+"/wrong-taxa", "%q, want the taxa %v (root first) or %v", str, down, up)
+	case !fieldsOK:
+		cx.violate(fn+"/wrong-name-or-rank", "%q: a name or a rank is not the one of the taxid", str)
 	}
 }
 
@@ -516,6 +692,9 @@ func (cx *c14ctx) checkLCA() {
 				cx.violate("TaxNode.LCA/not-commutative", "LCA(a,b)=%s LCA(b,a)=%s (node indices)", cx.id(got[a][b]), cx.id(got[b][a]))
 			}
 		}
+	}
+	if cx.light {
+		return
 	}
 	// triples: LCA(LCA(a,b),c) and LCA(a,LCA(b,c)) computed by the implementation from its own intermediate nodes
 	big := n > c14smallN // large structured trees: unordered triples only (ordered ones for the exhaustive small trees)
@@ -587,6 +766,9 @@ func (cx *c14ctx) checkClades() {
 				}
 			}
 		}
+		if cx.light {
+			continue
+		}
 		cladeSet := func(members []int) {
 			set := make(obitax.TaxonSet)
 			want := false
@@ -627,9 +809,55 @@ func (cx *c14ctx) checkClades() {
 		}
 	}
 
+	if cx.light {
+		return
+	}
 	// sequence predicates: restrict-to (IsSubCladeOf(taxid), IsSubCladeOfSlot) and ignore (its negation)
 	qs := append(append([]int{}, m.ids...), m.alias...)
 	seqIDs := append(append([]int{}, qs...), m.unknown)
+
+	// validity filter (alias resolution at the sequence level): a sequence is valid when its taxid or a merged
+	// id of it is in the taxonomy; with auto-correction a merged id is replaced by the current taxid. Each
+	// predicate is applied twice to every taxid (it remembers the deprecated taxids it has reported).
+	for auto := 0; auto < 2; auto++ {
+		var pred obiseq.SequencePredicate
+		fn := "Taxonomy.IsAValidTaxon"
+		if auto == 1 {
+			fn = "Taxonomy.IsAValidTaxon(autocorrect)"
+		}
+		if ok, _ := cx.do(fn, -1, -1, -1, "", func() {
+			if auto == 1 {
+				pred = tax.IsAValidTaxon(true)
+			} else {
+				pred = tax.IsAValidTaxon()
+			}
+		}); !ok || pred == nil {
+			continue
+		}
+		for rep := 0; rep < 2; rep++ {
+			for _, S := range seqIDs {
+				sn, sknown := m.nodeOf[S]
+				s := c14seq(S)
+				var g bool
+				if ok, _ := cx.do(fn+"(seq)", S, -1, -1, "", func() { g = pred(s) }); !ok {
+					continue
+				}
+				cx.r.Count("seq_validity_predicates", 1)
+				if g != sknown {
+					class := "taxid"
+					if !sknown {
+						class = "unknown-taxid"
+					} else if S != m.ids[sn] {
+						class = "alias"
+					}
+					cx.violate(fn+"/wrong:"+class, "sequence taxid %d: got %v want %v", S, g, sknown)
+				}
+				if auto == 1 && sknown && s.Taxid() != m.ids[sn] {
+					cx.violate(fn+"/taxid-not-current", "sequence taxid %d became %d, want the current taxid %d", S, s.Taxid(), m.ids[sn])
+				}
+			}
+		}
+	}
 	for _, P := range append(append([]int{}, qs...), m.unknown) {
 		var pred obiseq.SequencePredicate
 		ok, fatal := cx.do("Taxonomy.IsSubCladeOf(taxid)", P, -1, -1, "", func() { pred = cx.tax.IsSubCladeOf(P) })
@@ -670,18 +898,24 @@ func (cx *c14ctx) checkClades() {
 				sn, sknown := m.nodeOf[S]
 				want := sknown && pknown && m.isAnc[sn][pn]
 				var g bool
+				slotKind := "int-slot"
 				if ok, _ := cx.do("Taxonomy.IsSubCladeOfSlot(seq)", P, S, -1, "clade", func() {
 					s := c14seq(S)
-					if k%2 == 0 {
+					switch {
+					case k%3 == 0:
 						s.SetAttribute("clade", P)
-					} else {
+					case k%3 == 1 || !c14txForms:
+						slotKind = "decimal-string-slot"
 						s.SetAttribute("clade", strconv.Itoa(P))
+					default:
+						slotKind = "TX-string-slot"
+						s.SetAttribute("clade", c14stringForms(P)[(k/3)%2])
 					}
 					g = spred(s)
 				}); ok {
 					cx.r.Count("seq_clade_predicates", 1)
 					if g != want {
-						cx.violate("Taxonomy.IsSubCladeOfSlot/wrong", "slot clade=%d, sequence taxid %d: got %v want %v", P, S, g, want)
+						cx.violate("Taxonomy.IsSubCladeOfSlot/wrong:"+slotKind, "slot clade=%d, sequence taxid %d: got %v want %v", P, S, g, want)
 					}
 				}
 			}
@@ -774,6 +1008,15 @@ func (cx *c14ctx) checkSeqLCA() {
 						if nm, _ := out[0].GetStringAttribute("lca_name"); has && g == want && nm != m.names[m.nodeOf[want]] {
 							cx.violate("AddLCAWorker/wrong-name", "lca_name=%q want %q", nm, m.names[m.nodeOf[want]])
 						}
+					}
+				}
+				// history on one sequence object: it now carries the worker's annotations and whatever the first
+				// two calls cached in it; the LCA is still the same
+				var t2 *obitax.TaxNode
+				if ok, _ := cx.do("Taxonomy.LCA(sequence,1.0)", -1, -1, -1, desc+" (third query on the same sequence)", func() { t2, _, _ = tax.LCA(s, 1.0) }); ok {
+					cx.r.Count("seq_lca_repeated_on_same_sequence", 1)
+					if c14tid(t2) != want {
+						cx.violate("Taxonomy.LCA(sequence)/wrong-taxon:repeated-on-the-same-sequence", "got %d want %d", c14tid(t2), want)
 					}
 				}
 			}
@@ -875,6 +1118,9 @@ func (cx *c14ctx) checkRanks() {
 			}
 		}
 
+		if cx.light {
+			continue
+		}
 		// sequence layer: --require-rank
 		var pred obiseq.SequencePredicate
 		ok, fatal := cx.do("Taxonomy.HasRequiredRank", -1, -1, -1, rank, func() { pred = tax.HasRequiredRank(rank) })
@@ -925,17 +1171,29 @@ func (cx *c14ctx) checkRanks() {
 				variants = append(variants, struct {
 					fn string
 					f  func(s *obiseq.BioSequence) *obitax.TaxNode
-				}{"Taxonomy.SetSpecies", func(s *obiseq.BioSequence) *obitax.TaxNode { return tax.SetSpecies(s) }})
+				}{"Taxonomy.SetSpecies", func(s *obiseq.BioSequence) *obitax.TaxNode { return tax.SetSpecies(s) }},
+					struct {
+						fn string
+						f  func(s *obiseq.BioSequence) *obitax.TaxNode
+					}{"Taxonomy.MakeSetSpeciesWorker(seq)", func(s *obiseq.BioSequence) *obitax.TaxNode { tax.MakeSetSpeciesWorker()(s); return nil }})
 			case "genus":
 				variants = append(variants, struct {
 					fn string
 					f  func(s *obiseq.BioSequence) *obitax.TaxNode
-				}{"Taxonomy.SetGenus", func(s *obiseq.BioSequence) *obitax.TaxNode { return tax.SetGenus(s) }})
+				}{"Taxonomy.SetGenus", func(s *obiseq.BioSequence) *obitax.TaxNode { return tax.SetGenus(s) }},
+					struct {
+						fn string
+						f  func(s *obiseq.BioSequence) *obitax.TaxNode
+					}{"Taxonomy.MakeSetGenusWorker(seq)", func(s *obiseq.BioSequence) *obitax.TaxNode { tax.MakeSetGenusWorker()(s); return nil }})
 			case "family":
 				variants = append(variants, struct {
 					fn string
 					f  func(s *obiseq.BioSequence) *obitax.TaxNode
-				}{"Taxonomy.SetFamily", func(s *obiseq.BioSequence) *obitax.TaxNode { return tax.SetFamily(s) }})
+				}{"Taxonomy.SetFamily", func(s *obiseq.BioSequence) *obitax.TaxNode { return tax.SetFamily(s) }},
+					struct {
+						fn string
+						f  func(s *obiseq.BioSequence) *obitax.TaxNode
+					}{"Taxonomy.MakeSetFamilyWorker(seq)", func(s *obiseq.BioSequence) *obitax.TaxNode { tax.MakeSetFamilyWorker()(s); return nil }})
 			}
 			for _, v := range variants {
 				s := c14seq(S)
@@ -1072,7 +1330,187 @@ func c14runCaseOn(cx *c14ctx, skip map[string]bool) {
 		run("lca", cx.checkLCA)
 		run("clade", cx.checkClades)
 		run("seq-lca", cx.checkSeqLCA)
+		run("sets", cx.checkSets)
+		// call history on the same Taxonomy / TaxNode objects: the node-level queries once more, after the
+		// sequence-level ones (which reverse paths in place, fill per-sequence statistics, ...) went through them
+		cx.phase, cx.light = "@after-sequence-queries", true
+		run("rank", cx.checkRanks)
+		run("path", cx.checkPaths)
+		run("lca", cx.checkLCA)
+		run("clade", cx.checkClades)
+		cx.phase, cx.light = "", false
+		cx.r.Count("requery_passes", 1)
 	}
+}
+
+// ---------------------------------------------------------------------------------------------
+// 4. taxon sets, slices and the iterator filters built on clade membership and ranks (obifind -r / --rank)
+
+func (cx *c14ctx) checkSets() {
+	m, tax := cx.m, cx.tax
+	n := m.n
+	slice := make(obitax.TaxonSlice, 0, n)
+	for i := n - 1; i >= 0; i-- {
+		slice = append(slice, cx.nodes[i])
+	}
+	// a set built by Inserts answers Len / Get
+	all := make(obitax.TaxonSet)
+	if ok, _ := cx.do("TaxonSet.Inserts/Len/Get", -1, -1, -1, "", func() {
+		for rep := 0; rep < 2; rep++ {
+			for _, t := range cx.nodes {
+				all.Inserts(t)
+			}
+		}
+	}); ok {
+		good := all.Len() == n
+		for i := 0; i < n && good; i++ {
+			good = all.Get(m.ids[i]) == cx.nodes[i]
+		}
+		if !good || all.Get(m.unknown) != nil {
+			cx.violate("TaxonSet.Inserts/Len/Get/wrong", "a set in which the %d taxa were inserted twice has Len()=%d or does not give them back", n, all.Len())
+		}
+	}
+	type source struct {
+		name string
+		it   func() *obitax.ITaxonSet
+	}
+	sources := []source{
+		{"Taxonomy", func() *obitax.ITaxonSet { return tax.Iterator() }},
+		{"TaxonSet", func() *obitax.ITaxonSet { return tax.TaxonSet().Iterator() }},
+		{"TaxonSlice", func() *obitax.ITaxonSet { return slice.Iterator() }},
+	}
+	caseNo := 0
+	// drains an iterator into the sorted list of its taxids (through TaxonSlice(): duplicates are kept; every
+	// other time through TaxonSet())
+	collect := func(it *obitax.ITaxonSet) []int {
+		caseNo++
+		var got []int
+		if caseNo%2 == 0 {
+			for _, t := range *it.TaxonSlice() {
+				got = append(got, c14tid(t))
+			}
+		} else {
+			for id := range *it.TaxonSet() {
+				got = append(got, id)
+			}
+		}
+		sort.Ints(got)
+		return got
+	}
+	wantOf := func(keep func(x int) bool) []int {
+		var w []int
+		for x := 0; x < n; x++ {
+			if keep(x) {
+				w = append(w, m.ids[x])
+			}
+		}
+		sort.Ints(w)
+		return w
+	}
+	judge := func(fn string, got, want []int) {
+		cx.r.Count("set_filters", 1)
+		if len(want) > 0 && len(want) < n {
+			cx.r.Count("set_filters_proper_subset", 1)
+		}
+		if fmt.Sprint(got) != fmt.Sprint(want) {
+			class := "wrong-members"
+			if len(got) > len(want) {
+				class = "too-many"
+			} else if len(got) < len(want) {
+				class = "too-few"
+			}
+			cx.violate(fn+"/"+class, "got taxids %v want %v", got, want)
+		}
+	}
+	for _, src := range sources {
+		for b := 0; b < n; b++ {
+			if n > c14smallN && b%7 != 0 && b != n-1 {
+				continue // large structured trees: every 7th clade and the last node
+			}
+			var got []int
+			fn := src.name + ".IFilterOnSubcladeOf"
+			if ok, _ := cx.do(fn, m.ids[b], -1, -1, "", func() {
+				switch src.name {
+				case "Taxonomy":
+					got = collect(tax.IFilterOnSubcladeOf(cx.nodes[b]))
+				case "TaxonSet":
+					got = collect(tax.TaxonSet().IFilterOnSubcladeOf(cx.nodes[b]))
+				default:
+					got = collect(slice.IFilterOnSubcladeOf(cx.nodes[b]))
+				}
+			}); ok {
+				judge(fn, got, wantOf(func(x int) bool { return m.isAnc[x][b] }))
+			}
+		}
+		for _, rank := range append(append([]string{}, c14ranks...), c14absentRank) {
+			var got []int
+			fn := src.name + ".IFilterOnTaxRank"
+			if ok, _ := cx.do(fn, -1, -1, -1, rank, func() {
+				switch src.name {
+				case "Taxonomy":
+					got = collect(tax.IFilterOnTaxRank(rank))
+				case "TaxonSet":
+					got = collect(tax.TaxonSet().IFilterOnTaxRank(rank))
+				default:
+					got = collect(slice.IFilterOnTaxRank(rank))
+				}
+			}); ok {
+				judge(fn, got, wantOf(func(x int) bool { return m.ranks[x] == rank }))
+			}
+		}
+	}
+	// restriction to several clades at once (the set obifind builds from repeated -r): every non-empty subset
+	// of the nodes (the empty set means "no restriction": not constrained), then a rank filter chained before it
+	subsets := func(f func(members []int)) {
+		if n <= c14smallN {
+			for mask := 1; mask < 1<<n; mask++ {
+				var members []int
+				for x := 0; x < n; x++ {
+					if mask&(1<<x) != 0 {
+						members = append(members, x)
+					}
+				}
+				f(members)
+			}
+			return
+		}
+		for x := 0; x < n-1; x += 5 { // n >= 29 here: the three members are distinct
+			f([]int{x})
+			f([]int{x, n - 1})
+			if y := (x + n/2) % (n - 1); y != x {
+				f([]int{x, y, n - 1})
+			}
+		}
+	}
+	subsets(func(members []int) {
+		set := make(obitax.TaxonSet)
+		for _, x := range members {
+			set.Inserts(cx.nodes[x])
+		}
+		in := func(x int) bool {
+			for _, c := range members {
+				if m.isAnc[x][c] {
+					return true
+				}
+			}
+			return false
+		}
+		var got []int
+		fn := "ITaxonSet.IFilterBelongingSubclades"
+		class := ":several-clades"
+		if len(members) == 1 {
+			class = ":one-clade"
+		}
+		if ok, _ := cx.do(fn, -1, -1, -1, fmt.Sprint("clade nodes ", members), func() { got = collect(tax.Iterator().IFilterBelongingSubclades(&set)) }); ok {
+			judge(fn+class, got, wantOf(in))
+		}
+		rank := c14ranks[len(members)%len(c14ranks)]
+		if ok, _ := cx.do(fn, -1, -1, -1, fmt.Sprint("rank ", rank, " then clade nodes ", members), func() {
+			got = collect(tax.IFilterOnTaxRank(rank).IFilterBelongingSubclades(&set))
+		}); ok {
+			judge("ITaxonSet.IFilterOnTaxRank.IFilterBelongingSubclades"+class, got, wantOf(func(x int) bool { return in(x) && m.ranks[x] == rank }))
+		}
+	})
 }
 
 // ---------------------------------------------------------------------------------------------
@@ -1274,6 +1712,9 @@ func TestVerifC14(t *testing.T) {
 	r.Bound("taxid_schemes", "0: id=i+1, alias=10000+i, unknown=9999; 1: id=100000-37i, alias=i+1, unknown=50000")
 	r.Bound("builds", []string{"api", "dump-sn", "dump-all"})
 	r.Bound("merged_taxid_keys", "every subset of size 1..3 of taxids+aliases, 3 weight patterns")
+	c14txForms = c14probeTxForms()
+	r.Bound("taxid_string_forms", fmt.Sprintf("decimal; %q (judged: %v); strings without a taxid", c14stringForms(5), c14txForms))
+	r.Bound("call_histories", "node-level queries repeated after the sequence-level ones on the same objects; Path after the caller modified a previous answer; sequence LCA three times on one sequence object; validity predicate applied twice")
 
 	k := 0
 	stop := false
@@ -1386,5 +1827,11 @@ func TestVerifC14(t *testing.T) {
 		r.RequireNonVacuous("paths_longer_than_1")
 		r.RequireNonVacuous("taxonomies:dump-sn")
 		r.RequireNonVacuous("taxonomies:dump-all")
+		r.RequireNonVacuous("requery_passes")
+		r.RequireNonVacuous("path_ownership_histories")
+		r.RequireNonVacuous("seq_lca_repeated_on_same_sequence")
+		r.RequireNonVacuous("set_filters_proper_subset")
+		r.RequireNonVacuous("seq_paths")
+		r.RequireNonVacuous("seq_validity_predicates")
 	}
 }
